@@ -484,11 +484,13 @@ class DictList(list):
         if isinstance(i, slice):
             # In this case, y needs to be a list. We will ensure all
             # the id's are unique
+            new_ids = set()
             for obj in y:  # need to be setting to a list
                 self._check(obj.id)
-                # Insert a temporary placeholder so we catch the presence
-                # of a duplicate in the items being added
-                self._dict[obj.id] = None
+                # also catch the presence of a duplicate in the items being added
+                if obj.id in new_ids:
+                    raise ValueError(f"id {str(obj.id)} is present twice")
+                new_ids.add(obj.id)
             list.__setitem__(self, i, y)
             self._generate_index()
             return
